@@ -10,22 +10,25 @@ VARIABLES hist, finished,
                     \* uniformly among successor states; without this nearly every step of a random history is a write)
 gvars == <<vars, hist, finished, kind>>
 
-Ev(a, c, k, vals, r, busy, d) == [a |-> a, c |-> c, k |-> k, vals |-> vals, r |-> r, busy |-> busy, d |-> d]
-EvConfig(c) == Ev("config", c, "", <<>>, 0, FALSE, 0)
-EvWrite(k, vals, r, busy) == Ev("write", "", k, vals, r, busy, 0)
-EvRead(k, r, d) == Ev("read", "", k, <<>>, r, FALSE, d)
+Ev(a, c, k, vals, r, busy, d, n) == [a |-> a, c |-> c, k |-> k, vals |-> vals, r |-> r, busy |-> busy, d |-> d, n |-> n]
+EvConfig(c) == Ev("config", c, "", <<>>, 0, FALSE, 0, "")
+EvReconnect(n) == Ev("reconnect", "", "", <<>>, 0, FALSE, 0, n)
+EvWrite(k, vals, r, busy, n) == Ev("write", "", k, vals, r, busy, 0, n)
+EvRead(k, r, d, n) == Ev("read", "", k, <<>>, r, FALSE, d, n)
 
 GenInit == Init /\ hist = <<EvConfig(cfg)>> /\ finished = FALSE /\ kind = ""
 Finish == /\ ~finished /\ ops = MaxOps /\ PrintT("@@BEH " \o ToJson(hist)) /\ finished' = TRUE /\ UNCHANGED <<vars, hist, kind>>
 Draw ==
   /\ kind = "" /\ ops < MaxOps
   /\ kind' \in {"config", "write"} \cup (IF \E k \in Keys : stored[k] # <<>> THEN {"read"} ELSE {})
+                                   \cup (IF \E n \in Nodes : conn[n] # cfg THEN {"reconnect"} ELSE {})
   /\ UNCHANGED <<vars, hist>>
 Do ==
   /\ \/ kind = "config" /\ \E c \in Configs : SetConfig(c) /\ hist' = Append(hist, EvConfig(c))
-     \/ kind = "write" /\ \E k \in Keys, vals \in ValSeqs, r \in 0..MaxRedirects, busy \in BOOLEAN :
-          Write(k, vals, r, busy) /\ hist' = Append(hist, EvWrite(k, vals, r, busy))
-     \/ kind = "read" /\ \E k \in Keys, r \in 0..MaxRedirects, d \in Depths : Read(k, r, d) /\ hist' = Append(hist, EvRead(k, r, d))
+     \/ kind = "reconnect" /\ \E n \in Nodes : Reconnect(n) /\ hist' = Append(hist, EvReconnect(n))
+     \/ kind = "write" /\ \E k \in Keys, vals \in ValSeqs, r \in 0..MaxRedirects, busy \in BOOLEAN, n \in Via :
+          Write(k, vals, r, busy, n) /\ hist' = Append(hist, EvWrite(k, vals, r, busy, n))
+     \/ kind = "read" /\ \E k \in Keys, r \in 0..MaxRedirects, d \in Depths, n \in Via : Read(k, r, d, n) /\ hist' = Append(hist, EvRead(k, r, d, n))
   /\ kind' = ""
 GenNext == ~finished /\ (Draw \/ Do) /\ UNCHANGED finished
 GenSpec == GenInit /\ [][GenNext \/ Finish]_gvars
@@ -37,13 +40,31 @@ StrataInit == GenInit /\ cfg = "enabled"
 StrataNext ==
   /\ ~finished
   /\ \/ /\ Len(hist) = 1
-        /\ \E vals \in ValSeqs, r \in 0..MaxRedirects, busy \in BOOLEAN :
-             Write(SKey, vals, r, busy) /\ hist' = Append(hist, EvWrite(SKey, vals, r, busy))
+        /\ \E vals \in ValSeqs, r \in 0..MaxRedirects, busy \in BOOLEAN, n \in Via :
+             Write(SKey, vals, r, busy, n) /\ hist' = Append(hist, EvWrite(SKey, vals, r, busy, n))
      \/ /\ Len(hist) = 2
         /\ SetConfig("disabled") /\ hist' = Append(hist, EvConfig("disabled"))
      \/ /\ Len(hist) \in {2, 3} /\ Last.a # "read"
-        /\ \E r \in 0..MaxRedirects, d \in Depths : Read(SKey, r, d) /\ hist' = Append(hist, EvRead(SKey, r, d))
+        /\ \E r \in 0..MaxRedirects, d \in Depths, n \in Via : Read(SKey, r, d, n) /\ hist' = Append(hist, EvRead(SKey, r, d, n))
   /\ UNCHANGED <<finished, kind>>
 StrataFinish == /\ ~finished /\ Last.a = "read" /\ PrintT("@@BEH " \o ToJson(hist)) /\ finished' = TRUE /\ UNCHANGED <<vars, hist, kind>>
 StrataSpec == StrataInit /\ [][StrataNext \/ StrataFinish]_gvars
+
+-----------------------------------------------------------------------------
+(* The strata of connection age, enumerated completely: every node is connected under the first config; the config is  *)
+(* changed at run time; no connection or one of them is made again; ONE write over each connection; ONE read over each *)
+(* connection at every reply depth.                                                                                    *)
+ConnStrataInit == GenInit
+ConnStrataNext ==
+  /\ ~finished
+  /\ \/ /\ Len(hist) = 1
+        /\ \E c \in Configs : SetConfig(c) /\ hist' = Append(hist, EvConfig(c))
+     \/ /\ Len(hist) = 2
+        /\ \E n \in Nodes : Reconnect(n) /\ hist' = Append(hist, EvReconnect(n))
+     \/ /\ Len(hist) \in {2, 3} /\ Last.a # "write"
+        /\ \E vals \in ValSeqs, n \in Via : Write(SKey, vals, 0, FALSE, n) /\ hist' = Append(hist, EvWrite(SKey, vals, 0, FALSE, n))
+     \/ /\ Last.a = "write"
+        /\ \E d \in Depths, n \in Via : Read(SKey, 0, d, n) /\ hist' = Append(hist, EvRead(SKey, 0, d, n))
+  /\ UNCHANGED <<finished, kind>>
+ConnStrataSpec == ConnStrataInit /\ [][ConnStrataNext \/ StrataFinish]_gvars
 =============================================================================
